@@ -46,7 +46,8 @@ type stmt struct {
 	fin     []*stmt
 	hasFin  bool
 	hasElse bool
-	mode    string // sWith: "false" "true" "raise"
+	mode    string // sWith: "false" "true" "raise" ... "enter" (__enter__ raises KeyError), "p:<m1>:<m2>" (two managers in one statement)
+	inner   *stmt  // sWith with two managers: the second one, as the with statement it is equivalent to
 	iter    string // sFor: "" = range(2); else what is iterated (c02IterModes)
 	line    int    // line of the statement (header for compounds)
 	callLn  int    // sCall: line of the call g()
@@ -63,6 +64,11 @@ var excParents = map[string]string{
 // raised on the second step. Only StopIteration (and IndexError from __getitem__) end the
 // loop; everything else - in particular Exception, the base class of StopIteration, and
 // LookupError, the base class of IndexError - propagates from the for statement.
+// c02WhileModes: "" = a counted condition (two iterations); otherwise the condition is this constant
+var c02WhileModes = []string{"", "0", "False", "None", "''", "1", "True"}
+
+func c02WhileTrue(m string) bool { return m == "1" || m == "True" }
+
 var c02IterModes = []string{"cls-StopIteration", "cls-Exception", "cls-KeyError", "gen-Exception", "gen-return", "seq-IndexError", "seq-LookupError"}
 
 // c02IterRaises: the exception that escapes the loop header ("" = the loop just ends)
@@ -149,8 +155,20 @@ func (r *c02r) stmt(ind int, s *stmt) {
 		r.nw++
 		v := fmt.Sprintf("w%d", r.nw)
 		r.emit(ind, v+" = 0")
-		s.line = r.emit(ind, "while "+v+" < 2:")
-		r.emit(ind+1, v+" += 1")
+		switch {
+		case s.iter == "":
+			s.line = r.emit(ind, "while "+v+" < 2:")
+			r.emit(ind+1, v+" += 1")
+		case c02WhileTrue(s.iter):
+			// a constant true condition: two iterations, then a break (which skips the else clause)
+			s.line = r.emit(ind, "while "+s.iter+":")
+			r.emit(ind+1, v+" += 1")
+			r.emit(ind+1, "if "+v+" > 2:")
+			r.emit(ind+2, "break")
+		default:
+			// a constant false condition: the body never runs, the else clause does
+			s.line = r.emit(ind, "while "+s.iter+":")
+		}
 		r.block(ind+1, s.body)
 		if s.hasElse {
 			r.emit(ind, "else:")
@@ -196,7 +214,15 @@ func (r *c02r) stmt(ind int, s *stmt) {
 	case sWith:
 		r.nid++
 		s.id = r.nid
-		s.line = r.emit(ind, fmt.Sprintf("with CM(%d, %q):", s.id, s.mode))
+		if strings.HasPrefix(s.mode, "p:") {
+			parts := strings.Split(s.mode, ":")
+			r.nid++
+			s.inner = &stmt{k: sWith, mode: parts[2], id: r.nid, body: s.body}
+			s.line = r.emit(ind, fmt.Sprintf("with CM(%d, %q), CM(%d, %q):", s.id, parts[1], s.inner.id, parts[2]))
+			s.inner.line = s.line
+		} else {
+			s.line = r.emit(ind, fmt.Sprintf("with CM(%d, %q):", s.id, s.mode))
+		}
 		r.block(ind+1, s.body)
 	case sCall:
 		r.nfn++
@@ -327,6 +353,12 @@ func (m *c02m) exec(s *stmt, fn string) compl {
 		if s.iter != "" {
 			n = 1
 		}
+		if s.k == sWhile && s.iter != "" {
+			n = 0
+			if c02WhileTrue(s.iter) {
+				n = 2
+			}
+		}
 		for it := 0; it < n; it++ {
 			c := m.block(s.body, fn)
 			switch c.kind {
@@ -338,7 +370,10 @@ func (m *c02m) exec(s *stmt, fn string) compl {
 				return c
 			}
 		}
-		if s.iter != "" {
+		if s.k == sWhile && c02WhileTrue(s.iter) {
+			return compl{} // left by the break after two iterations: no else clause
+		}
+		if s.k == sFor && s.iter != "" {
 			if e := c02IterRaises(s.iter); e != "" {
 				// raised inside the iterator while the for statement asks for the next item
 				return compl{kind: "raise", exc: &excObj{typ: e, tb: []tbEntry{{fn, s.line}}, reraiseLines: map[tbEntry]bool{}}}
@@ -385,7 +420,17 @@ func (m *c02m) exec(s *stmt, fn string) compl {
 		return c
 	case sWith:
 		m.log = append(m.log, fmt.Sprintf("('enter',%d)", s.id))
-		c := m.block(s.body, fn)
+		mode, body := s.mode, s.body
+		if s.inner != nil {
+			// with A, B: body  is  with A: with B: body
+			mode, body = strings.Split(s.mode, ":")[1], []*stmt{s.inner}
+		}
+		if mode == "enter" {
+			// __enter__ raises: the manager was never entered, so its __exit__ is not called and
+			// the body does not run; managers entered before it (to its left) are exited
+			return compl{kind: "raise", exc: &excObj{typ: "KeyError", tb: []tbEntry{{fn, s.line}, {"__enter__", -1}}, reraiseLines: map[tbEntry]bool{}}}
+		}
+		c := m.block(body, fn)
 		// __exit__ runs exactly once on every way out
 		arg := "None"
 		if c.kind == "raise" {
@@ -393,7 +438,7 @@ func (m *c02m) exec(s *stmt, fn string) compl {
 		}
 		m.log = append(m.log, fmt.Sprintf("('exit',%d,%s)", s.id, arg))
 		m.counts[fmt.Sprintf("exit@%d", s.id)]++
-		switch s.mode {
+		switch mode {
 		case "raise":
 			// __exit__ raises ValueError: it replaces whatever was pending. Raised inside
 			// __exit__ (function "__exit__"), propagating through the with statement's line.
@@ -435,9 +480,9 @@ type c02gen struct {
 
 func (g *c02gen) withModes() []string {
 	if g.moreModes {
-		return []string{"false", "true", "raise", "one", "zero", "none"}
+		return []string{"false", "true", "raise", "enter", "one", "zero", "none", "p:true:enter", "p:false:enter", "p:true:raise", "p:enter:true", "p:false:true"}
 	}
-	return []string{"false", "true", "raise"}
+	return []string{"false", "true", "raise", "enter"}
 }
 
 type handlerSpec struct {
@@ -475,6 +520,9 @@ func (g *c02gen) stmts(budget, depth int, k func(s *stmt, used int)) {
 		modes := []string{""}
 		if kind == sFor && g.iterModes != nil {
 			modes = g.iterModes
+		}
+		if kind == sWhile && g.moreModes {
+			modes = c02WhileModes
 		}
 		for _, im := range modes {
 			g.blocks(budget-1, depth+1, func(b []*stmt, u int) {
@@ -580,6 +628,8 @@ class CM:
         self.mode = mode
     def __enter__(self):
         vh.log(('enter', self.n))
+        if self.mode == "enter":
+            raise KeyError
         return self
     def __exit__(self, t, v, tb):
         if t is None:
@@ -847,7 +897,7 @@ func c02OneGap(c *c01, body []*stmt, used int, plan int, gap int) {
 				i++
 				continue
 			}
-			if o.Func == "__exit__" || o.Func == "__next__" || o.Func == "gen1" || o.Func == "__getitem__" {
+			if o.Func == "__exit__" || o.Func == "__enter__" || o.Func == "__next__" || o.Func == "gen1" || o.Func == "__getitem__" {
 				continue // frames of the context manager / iterator the statement called into
 			}
 			if expReraise[oe] {
@@ -889,7 +939,7 @@ func init() {
 	core.Register(&core.Check{
 		ID:    "C02",
 		Level: "model_checking",
-		Rule: "every statement tree within a node budget (quick 4-5, thorough 5-7) and nesting depth 2-3 over {log, raise E, bare raise, return, break, continue, if/else, for/while (2 iterations) with else, try with 8 handler layouts (class, tuple of classes, bare, `as`, two ordered handlers) x else x finally, with (3 __exit__ behaviours), nested function call}, " +
+		Rule: "every statement tree within a node budget (quick 4-5, thorough 5-7) and nesting depth 2-3 over {log, raise E, bare raise, return, break, continue, if/else, for/while (2 iterations; first plan: also while with the constant conditions 0, False, None, '', 1, True) with else, try with 8 handler layouts (class, tuple of classes, bare, `as`, two ordered handlers) x else x finally, with (3 __exit__ behaviours, an __enter__ that raises, and in the first plan also __exit__ returning 1 / 0 / None and five two-manager statements), nested function call}, " +
 			"blocks of 1-2 statements, every leaf at every position; one statement per line. Oracle: a structural operational semantics giving the path log (incl. __enter__/__exit__), the compile-time rejection (break/continue outside loop, continue in finally), the uncaught exception type, the returned value and the traceback (function, line) of the raising statement and of every active call. Part linegaps: 9 shapes (raise at the start of a function, after a log, after two gaps, in a nested call, in try/finally, in a handler, in a with block, after a loop) with runs of P comment-only lines before the statements and between the definition and the call, P in {1, 254..257, 509..512, 764..766, 1019..1021, 2041}: same oracle, in particular the traceback lines. Non-trivial: the expected log is non-empty or the program must be rejected.",
 		Run:         c02Run,
 		Assumptions: []string{"tracebacks: an extra entry at a bare `raise` line is accepted (3.4 adds it, later versions do not)", "user-defined exception classes are not in the alphabet"},
